@@ -36,7 +36,7 @@ CHECKS = {
          'N generated include graphs on disk (chains, trees, DAGs with sharing, self-loops, cycles, missing targets, nested directories, transclude-base overrides, wildcards, metadata, CRLF) x {html, latex, fodt, mmd}: acyclic = byte equality of text and manifest with the model; cyclic = returns within the watchdog and stays within S(m+1)^(n+1); CLI agrees with the library',
          'for cyclic graphs only termination and the size bound are judged; the model\'s cycle reading is reported'),
  'C17': ('ThreadSanitizer (happens-before race detection) over a multi-threaded harness with yield injection at hooks + serial-vs-concurrent byte comparison',
-         'N runs of T in {2,4,8,16} threads x 30-60 conversions over 30 documents x 17 format/extension combos on the DISABLE_OBJECT_POOL + TSan build: no report with a frame in /repo/src, every deterministic output equals the serial one; >= 25% of conversions overlapped another thread in every counted run',
+         'N runs of T in {2,4,8,16} threads x 30-60 conversions over 30 documents x 20 entry-point/format/extension combos (incl. the text-level CriticMarkup accept/reject pass and metadata keys) on the DISABLE_OBJECT_POOL + TSan build: no report with a frame in /repo/src, every deterministic output equals the serial one; >= 25% of conversions overlapped another thread in every counted run',
          'TSan only understands intercepted synchronisation; interleavings are those the scheduler and injected yields produced'),
  'C18': ('hook-state invariants + ASan + allocated-bytes accounting over enumerated/sampled pool call histories',
          'N well-bracketed histories (init/drain/free/convert/parse-and-keep/inspect, depth <= 4, <= 8 kept engines) with documents calibrated to 1023/1024/1025/2048/2049 tokens and up to ~68000: uses = depth, inner drains free nothing, outermost drain frees every slab and returns to the recorded byte level, free returns to baseline, re-init starts clean, outputs and kept trees unchanged',
